@@ -18,6 +18,7 @@ import sys, os, re
 sys.path.insert(0, os.path.join(os.path.dirname(os.path.abspath(__file__)), "..", "lib"))
 from vlib import *
 from modcorpus import *
+import c02 as C02
 
 INC = os.path.join(HARNESS, "moddrv_c07.inc")
 SYNS = ["der", "uper", "oer", "xer", "cxer"]
@@ -122,6 +123,17 @@ def has_null(t):
         return has_null(t[3])
     if k in ("x", "?"):
         return has_null(t[-1])
+    return False
+
+
+def null_tl_chain(chunks, k):
+    """chunks[k..j-1] are constructed TLs (EXPLICIT tags) and chunks[j] is a primitive TL with length 00, j - k <= 3"""
+    for j in range(k, min(k + 4, len(chunks))):
+        c = chunks[j]
+        if len(c) < 2:
+            return False
+        if not (c[0] & 0x20):
+            return c[-1] == 0
     return False
 
 
@@ -234,7 +246,9 @@ def check_sweep(ctx, m, tn, der, syn, out, tr, model_bytes, label):
         exp = "NONE" if model_bytes == "NONE" else model_bytes
         got = "NONE" if ret < 0 else (data.hex() if data else "-")
         if exp != got and not (exp == "" and got == "-"):
-            if label == "valid":
+            if syn == "uper" and ret < 0 and m["name"] != "C07X" and (C02.ref_to_choice(m, tn) or C02.uses_choice_ref(m, dict(m["defs"])[tn])):
+                run.count("c02_choice_ref_no_per(not a C07 matter)")        # recorded under C02; -1 with EBADF is within C07
+            elif label == "valid":
                 run.violation("correspondence:Rt.%s" % syn, dict(rep, what="C encoder result differs from the model", model=exp, got=got), no_input=(ret < 0 or ret == len(data)))
             elif exp == "NONE":
                 run.violation("correspondence:unencodable(%s)" % syn, dict(rep, what="the model cannot encode this value (None) but the C returned %d" % ret, model=exp, got=got), no_input=True)
@@ -260,8 +274,8 @@ def check_sweep(ctx, m, tn, der, syn, out, tr, model_bytes, label):
                 # the invocation after the zero-length one is asn_put_aligned_flush(&preamble), result ignored;
                 # extensible SEQUENCE: assert(ret == 0) right after the first asn_put_few_bits
                 fid = "C07-oer-sequence-preamble-flush"
-            elif aborted and syn == "der" and "null" in tr and len(chunks[k]) >= 2 and chunks[k][-1] == 0 and not (chunks[k][0] & 0x20):
-                # the failing invocation is the TL of a NULL
+            elif aborted and syn == "der" and "null" in tr and null_tl_chain(chunks, k):
+                # the failing invocation is the TL of a NULL (or one of the EXPLICIT tags written by the same der_write_tags call)
                 fid = "C07-null-der-failed-type"
             elif aborted and syn == "uper" and "setof" in tr and ret >= 0:
                 fid = "C07-setof-uper-put-failure-ignored"
@@ -341,7 +355,7 @@ def check_newbuf(ctx, m, tn, der, syn, out, ret, chunks, label):
     run.count("newbuf_%s" % syn)
 
 
-def check_battery(ctx, m, tn, line, out, kindhint=None):
+def check_battery(ctx, m, tn, line, out, tr=()):
     """`mut` / `zero` result: partially initialised structure through the three entry points"""
     run = ctx.run
     rep = {"module": m["text"], "type": tn, "command_line": line, "c": out[:1200]}
@@ -355,6 +369,9 @@ def check_battery(ctx, m, tn, line, out, kindhint=None):
             fid = None
             if kind == "ELNULL" and syn in ("uper", "oer"):
                 fid = "C07-of-null-element"
+            elif syn == "uper" and "setof" in tr and "sig=6" not in seg:
+                # an element of a SET OF that cannot be encoded (CHOICE present 0, INTEGER without contents, ...)
+                fid = "C07-setof-uper-unencodable-element"
             if fid:
                 run.known_finding(fid, line)
             else:
@@ -580,7 +597,7 @@ def main(tier):
             lines4.append("zero %s" % tn)
         out4 = run_mod(run, m, lines4, "C07")
         for l, o in zip(lines4, out4):
-            check_battery(ctx, m, l.split()[1], l, o)
+            check_battery(ctx, m, l.split()[1], l, o, traits(m, l.split()[1]))
     if nthm:
         model_part(ctx, model_items)
     # one full witness per known finding into the evidence
